@@ -78,6 +78,20 @@ pub fn explore_env(code: &[u8], width: Width, depth: usize, step_cap: u64, cycle
     out
 }
 
+pub const MAX_HANG_CONFIRMATIONS: u32 = 6;
+thread_local! {
+    pub static HANG_CONFIRMATIONS: std::cell::Cell<u32> = const { std::cell::Cell::new(0) };
+}
+
+/// True while this worker may still spend wall-clock time on confirming a suspected hang.
+pub fn may_confirm_hang() -> bool {
+    HANG_CONFIRMATIONS.with(|h| {
+        let v = h.get();
+        h.set(v + 1);
+        v < MAX_HANG_CONFIRMATIONS
+    })
+}
+
 pub struct Failure {
     pub class: String,
     pub mode: String,
@@ -284,7 +298,39 @@ pub fn judge_halting(c: &Compiled, script: &[u8], canon: &Canon, known_hang: boo
             detail: "listed hang: reproduced at the screening budget".into(),
         });
     }
-    // interrupted at the screening budget: the real observation is the unlimited run, isolated
+    // interrupted at the screening budget: escalate the budget once (x16: a correct backend needs
+    // less than B0/2), then take the real observation — the unlimited run, isolated under a watchdog.
+    // Wall-clock confirmations are limited per worker so that a change which turns thousands of
+    // cases into hangs still terminates: beyond the limit the escalated budget run is the evidence.
+    let big = b0.saturating_mul(16);
+    let (r3, log3) = run_logged(c, Mode::Limited(big), script, cap, Arm::default());
+    if r3.finished == Some(true) && log3 == *expected {
+        let (_, log4) = run_logged(c, Mode::Execute, script, cap, Arm::default());
+        return match classify(&log4, expected) {
+            None => Ok(()),
+            Some((cl, i)) => Err(Failure {
+                class: cl.into(),
+                mode: "execute".into(),
+                observed: trace_str(&log4),
+                expected: trace_str(expected),
+                first_diff: i,
+                detail: "limited twin agreed at 16*B0, unlimited run differs".into(),
+            }),
+        };
+    }
+    if r3.finished == Some(false) && !may_confirm_hang() {
+        return Err(Failure {
+            class: "hang".into(),
+            mode: "execute".into(),
+            observed: trace_str(&log3),
+            expected: trace_str(expected),
+            first_diff: 0,
+            detail: format!(
+                "still interrupted at budget {big} (16 x the screening budget; canonical run takes {} steps); wall-clock confirmation skipped after {MAX_HANG_CONFIRMATIONS} confirmed hangs in this worker",
+                canon.steps
+            ),
+        });
+    }
     match run_isolated(c, Mode::Execute, script, cap, None, true, Arm::default(), 2000) {
         IsoOutcome::Ran(x) => {
             if let Some(p) = x.panicked {
